@@ -14,9 +14,10 @@
 (* enc/dec are steps of ZCodec (SendFrame, Decode).  A continuation frame      *)
 (* where IsContinue does not hold is a mismatch even if it would decode well;  *)
 (* a full frame where a continuation would do is accepted.  The first          *)
-(* mismatch of a segment is printed as <<"MISMATCH", line, what>> and the rest *)
-(* of its enc/dec lines are skipped; trunc/corrupt/late lines are independent  *)
-(* evaluations against the segment's history and are always judged.           *)
+(* enc/dec mismatch of a segment is printed as <<"MISMATCH", line, what>> and  *)
+(* the rest of the segment is skipped; trunc/corrupt/late lines are            *)
+(* independent evaluations against the segment's history: each failing one is  *)
+(* printed and the segment goes on.                                            *)
 EXTENDS ZCodec, Json, IOUtils, FiniteSets
 
 VARIABLES l,       \* next trace line
@@ -62,7 +63,7 @@ OnEnc ==
        /\ ends' = Append(ends, (IF ends = <<>> THEN 0 ELSE ends[Len(ends)]) + E.nbytes)
        /\ UNCHANGED bad
   ELSE Mismatch(<<"enc", IF E.err # "" THEN "encode-error"
-                         ELSE IF E.kind = "cont" THEN "continuation-where-a-full-frame-is-required"
+                         ELSE IF E.kind = "cont" THEN "cont-not-allowed"
                          ELSE "wrong-frame-kind", E.kind>>)
 
 \* ---- dec
@@ -70,7 +71,7 @@ OnDec ==
   IF wire = <<>> \/ closed
   THEN \* nothing left to read: the reader must see the end of the stream
        IF E.errclass = "eof" THEN Same
-       ELSE Mismatch(<<"dec", "result-after-end-of-stream", E.errclass>>)
+       ELSE Mismatch(<<"dec", "after-eos", E.errclass>>)
   ELSE LET r == DecodeFrame(dec, cfg, Head(wire)) IN
        IF r.err
        THEN IF ~NoError(E.errclass) THEN Decode /\ UNCHANGED <<sentd, ends, bad>>
@@ -84,7 +85,7 @@ OnDec ==
 \* ---- late digest
 OnLate ==
   IF E.i <= Len(sentd) /\ E.dig = sentd[E.i] THEN Same
-  ELSE Note(<<"late", "earlier-message-changed-after-later-decode", E.i>>)
+  ELSE Note(<<"late", "earlier-msg-changed", E.i>>)
 
 \* ---- truncation at byte k
 Whole(k)    == Cardinality({j \in 1..Len(ends) : ends[j] <= k})
@@ -93,7 +94,7 @@ OnTrunc ==
   LET exp == SubSeq(sentd, 1, Whole(E.k)) IN
   IF E.got # exp THEN Note(<<"trunc", "wrong-messages", E.k>>)
   ELSE IF NoError(E.errclass) THEN Note(<<"trunc", "no-error", E.k>>)
-  ELSE IF Boundary(E.k) /\ E.errclass # "eof" THEN Note(<<"trunc", "not-eof-at-frame-boundary", E.k>>)
+  ELSE IF Boundary(E.k) /\ E.errclass # "eof" THEN Note(<<"trunc", "not-eof-at-boundary", E.k>>)
   ELSE Same
 
 \* ---- one corrupted byte
@@ -120,12 +121,13 @@ TNext ==
           /\ enc' = Ctx0 /\ dec' = Ctx0 /\ wire' = <<>> /\ sent' = <<>> /\ recvd' = <<>>
           /\ damaged' = FALSE /\ closed' = FALSE /\ whole' = 0
           /\ sentd' = <<>> /\ ends' = <<>> /\ bad' = FALSE
+     ELSE IF bad THEN Same     \* model and code have parted: nothing more to judge here
      ELSE CASE E.ev = "late"    -> OnLate
             [] E.ev = "trunc"   -> OnTrunc
             [] E.ev = "corrupt" -> OnCorrupt
-            [] E.ev = "enc"     -> IF bad THEN Same ELSE OnEnc
-            [] E.ev = "dec"     -> IF bad THEN Same ELSE OnDec
-            [] OTHER            -> IF bad THEN Same ELSE Mismatch(<<E.ev, "no-such-action", "">>)
+            [] E.ev = "enc"     -> OnEnc
+            [] E.ev = "dec"     -> OnDec
+            [] OTHER            -> Mismatch(<<E.ev, "no-such-action", "">>)
 
 TSpec == TInit /\ [][TNext]_tvars
 
